@@ -227,14 +227,14 @@ def select(cases, rng, budget):
     return (first + second + rest)[:budget]
 
 
-def sweep_cases(cases, rng, tier):
+def sweep_cases(cases, rng, tier, others=()):
     """Fault sweeps on TLC-generated histories with exactly one fault step: all crash points / dense
     byte positions (thorough), samples (quick)."""
     q = tier == 'quick'
     out = []
 
-    def pick(pred, n):
-        cand = [c for c in cases if pred(c)]
+    def pick(pred, n, pool=None):
+        cand = [c for c in (cases if pool is None else pool) if pred(c)]
         # shortest first; among them calls with numeric_enums and a codec other than ber, so that a wrongly
         # defaulted specification cannot coincide with the right one
         cand.sort(key=lambda c: (len(c['hist']), c['hist'][-1]['ne'] != 'T', c['hist'][-1]['codec'] == 'ber', c['cid']))
@@ -249,28 +249,56 @@ def sweep_cases(cases, rng, tier):
                 break
         return res
 
-    def one_fault(c, op):
-        fs = [s for s in c['hist'] if s['op'] != 'call']
-        return len(fs) == 1 and fs[0]['op'] == op and c['hist'][-1]['op'] == 'call' and len(c['hist']) <= 4
+    def ops(c):
+        return [st['op'] for st in c['hist']]
+
+    def stored_before(c, j):
+        """some earlier step left an entry behind (a call, or a call killed after the commit)"""
+        return any(st['op'] == 'call' or (st['op'] == 'kill' and st['at'] in ('storing2', 'storing3')) for st in c['hist'][:j])
+
+    def kill_base(c, later):
+        o = ops(c)
+        if 'corrupt' in o or o[-1] != 'call' or len(o) > (9 if later else 4) or 'kill' not in o:
+            return False
+        j = max(k for k, x in enumerate(o) if x == 'kill')          # the swept step: the last kill
+        if later:    # a populating call killed in a directory that already holds entries (of other keys)
+            return j > 0 and stored_before(c, j) and c['hist'][j]['at'].startswith('storing')
+        return j == 0
+
+    def settle(sc, j):
+        """steps before the swept one must reliably leave their entry behind: a call killed after its
+        commit is killed at the marker that follows the set"""
+        for st in sc['hist'][:j]:
+            if st['op'] == 'kill' and st['at'] in ('storing2', 'storing3'):
+                st['p'] = {'kind': 'marker', 'm': 'set_end'}
+
+    def damage_base(c, how):
+        o = ops(c)
+        if o.count('corrupt') != 1 or o[-1] != 'call' or len(o) > 4:
+            return False
+        j = o.index('corrupt')
+        return c['hist'][j]['how'] == how and stored_before(c, j)
 
     # SIGKILL sweeps
-    kills_first = pick(lambda c: one_fault(c, 'kill') and c['hist'][0]['op'] == 'kill', 1 if q else 2)
-    kills_later = pick(lambda c: one_fault(c, 'kill') and c['hist'][0]['op'] == 'call' and c['hist'][1]['op'] == 'kill', 1 if q else 2)
+    kills_first = pick(lambda c: kill_base(c, False), 1 if q else 2)
+    kills_later = pick(lambda c: kill_base(c, True), 1 if q else 2, pool=list(others))
     for c in kills_first + kills_later:
         for mode in ('db', 'file'):
             parts = 1 if q else 12
             for part in range(parts):
-                s = slim(c)
-                j = [k for k, st in enumerate(s['hist']) if st['op'] == 'kill'][0]
+                s = concretise(c, rng, tier)
+                j = max(k for k, st in enumerate(s['hist']) if st['op'] == 'kill')
+                s['hist'][j].pop('p', None)
+                settle(s, j)
                 s['mode'] = mode
+                s['exit'] = 'normal'
                 s['cid'] = '%s-k%s%d' % (c['cid'], mode, part)
                 s['sweep'] = ({'step': j, 'kind': 'kill-sample', 'count': 9 if mode == 'db' else 7, 'seed': rng.randrange(1 << 30)}
                               if q else {'step': j, 'kind': 'kill-all', 'part': [part, parts]})
                 out.append(s)
     # damage sweeps
     for how in ('flip', 'trunc'):
-        bases = pick(lambda c: one_fault(c, 'corrupt') and [s for s in c['hist'] if s['op'] == 'corrupt'][0]['how'] == how,
-                     2)
+        bases = pick(lambda c: damage_base(c, how), 2)
         for bi, c in enumerate(bases):
             for mode in ('db', 'file'):
                 masks = [0x01] if q else [0x01, 0xff]
@@ -279,9 +307,12 @@ def sweep_cases(cases, rng, tier):
                 for mask in masks:
                     parts = 1 if q else 8
                     for part in range(parts):
-                        s = slim(c)
+                        s = concretise(c, rng, tier)
                         j = [k for k, st in enumerate(s['hist']) if st['op'] == 'corrupt'][0]
+                        s['hist'][j].pop('p', None)
+                        settle(s, j)
                         s['mode'] = mode
+                        s['exit'] = 'normal'
                         s['cid'] = '%s-%s%s%02x-%d' % (c['cid'], how[0], mode, mask, part)
                         if how == 'flip':
                             s['sweep'] = {'step': j, 'kind': 'flip-dense', 'max': 24 if q else 1200, 'mask': mask,
@@ -406,7 +437,7 @@ def c17(tier, seed):
             budget = tuple(int(x) for x in os.environ['VERIF_C17_BUDGET'].split(','))
         sel_f = [concretise(c, rng, tier) for c in select(focus, rng, budget[0])]
         sel_o = [concretise(c, rng, tier) for c in select(others, rng, budget[1])]
-        sweeps = [] if os.environ.get('VERIF_C17_NOSWEEP') else sweep_cases(focus, rng, tier)     # switch: development only
+        sweeps = [] if os.environ.get('VERIF_C17_NOSWEEP') else sweep_cases(focus, rng, tier, others)     # switch: development only
         # one order for all shards: witnesses first, then sweeps / one-key histories / interleaved-key
         # histories in turn, so that a deadline cuts all three kinds alike
         order = witness_cases()
